@@ -334,7 +334,16 @@ impl Ddl {
             6 | 7 if !free.is_empty() => {
                 let c = rng.pick(&cols).clone();
                 let to = *rng.pick(&free);
-                alter(format!("ALTER TABLE {} CHANGE COLUMN {} {} {}", tn, cs(rng, &c.name), cs(rng, to), ty_sql(&c.ty)), format!("chg:{}:{}", c.name, up(to)))
+                let quoted = !self.sw.guard("c33_no_quoted_identifiers");
+                match rng.below(6) {
+                    // (known finding C33-quoted-identifier-case keeps these two out of the workload)
+                    0 | 1 if !quoted => alter(format!("ALTER TABLE {} CHANGE COLUMN {} {} {}", tn, cs(rng, &c.name), cs(rng, to), ty_sql(&c.ty)), format!("chg:{}:{}", c.name, up(to))),
+                    // a quoted identifier keeps its case: rename to the same name in lower case (a change of
+                    // spelling only), or to another name written in lower case
+                    0 => alter(format!("ALTER TABLE {} CHANGE COLUMN {} \"{}\" {}", tn, cs(rng, &c.name), c.name.to_lowercase(), ty_sql(&c.ty)), format!("chg:{}:{}", c.name, c.name)),
+                    1 => alter(format!("ALTER TABLE {} CHANGE COLUMN {} \"{}\" {}", tn, cs(rng, &c.name), to.to_lowercase(), ty_sql(&c.ty)), format!("chg:{}:{}", c.name, up(to))),
+                    _ => alter(format!("ALTER TABLE {} CHANGE COLUMN {} {} {}", tn, cs(rng, &c.name), cs(rng, to), ty_sql(&c.ty)), format!("chg:{}:{}", c.name, up(to))),
+                }
             }
             8 => {
                 let to = *rng.pick(&TABLES);
